@@ -50,6 +50,11 @@ func (its *datatype) cloneDatatype(txCtx *datatypes.TransactionContext) *datatyp
 	}
 }
 
+// readLock is taken by the public read methods; see TransactionDatatype.BeginRead.
+func (its *datatype) readLock() func() {
+	return its.BeginRead(its.TxCtx)
+}
+
 func (its *datatype) HandleStateChange(old, new model.StateOfDatatype) {
 	if its.handlers != nil && its.handlers.stateChangeHandler != nil {
 		its.handlers.stateChangeHandler(its.Datatype, old, new)
